@@ -21,7 +21,13 @@ RULE = ('hist: hypothesis-generated histories: a pool of 2-4 documents (shared T
         'some selector evaluated on >= 2 different documents, or a variable map reused after an evaluation that '
         'received a timezone. scope: generated programs over for/let/some/every/inline-function binders with '
         'shadowing, judged by an own environment-passing interpreter (values, or XPST0008 for a free variable); '
-        'non-trivial = a binder shadows a name that is also read outside it. distinct by canonical case.')
+        'non-trivial = a binder shadows a name that is also read outside it. distinct by canonical case. '
+        'round 2: the template table also holds partial application and reuse of caller-owned function items (named '
+        'reference, inline, partial, map, array passed as variable values, own dump of kind/name/arity/bound arguments), '
+        'multi-clause for/some/every that rebind a name of an earlier clause, fn:serialize with every serialization '
+        'parameter in map and element form (succeeding and failing values) on trees with tails, parse-xml, parse-json, '
+        'json-to-xml, xml-to-json with options; scope programs contain multi-clause for/let/some/every binders in which '
+        'a later clause rebinds the name of an earlier one and a range expression in between reads it.')
 ASSUMPTIONS = [
     'repeatability compares elementpath with itself (pooled selector/token vs freshly parsed expression on freshly '
     'built inputs): the property names this relation; both sides failing in the same way is not a C05 discrepancy',
@@ -1107,8 +1113,8 @@ def selftest():
 def jobs(tier, seed):
     q = tier == 'quick'
     out = []
-    nh, per_h = (10, 45) if q else (12, 900)
-    nsc, per_s = (4, 2500) if q else (4, 60000)
+    nh, per_h = (12, 80) if q else (12, 900)
+    nsc, per_s = (4, 3000) if q else (4, 60000)
     for i in range(nh):
         out.append({'check': 'hist', 'shard': i, 'n': per_h, 'seed': derive_seed(seed, 'C05', 'hist', i)})
     for i in range(nsc):
